@@ -16,19 +16,23 @@ from harness.common import Collector
 
 ID = "C05"
 
-RULE = ("(a) Python scope trees: module / functions / nested functions / classes / methods with assignments, "
-        "augmented assignments, for targets, parameters, def, class, aliased imports, global / nonlocal and reads in "
-        "8 syntactic forms, all over the alphabet {x,y,z} (+ builtins and one undefined name), one identifier occurrence "
-        "of interest per line; (b) 2-6-file Python projects (flat / package / sub-package layouts) with import m, "
-        "import m as n, import p.m as n, from m import f [as g], from m import *, from p import m, explicit relative "
-        "imports, re-exports, imports inside functions, imports of missing names; (c) JavaScript trees with var / let / "
-        "const / function declarations / function expressions / arrows, parameters, if / else / while / for(let) / bare "
-        "blocks, reads and writes; (d) renaming of one declaration + the occurrences the oracle binds to it (Python "
-        "trees with source/sink plumbing, JavaScript trees). Every occurrence's symbol_id in s2space_p1 is mapped to "
-        "(unit, owning scope by GIR parent chain, name, line) and compared with the oracle. Non-trivial = some use's "
-        "name is declared in >= 2 scopes that are ancestors-or-self of the use's scope or children of one (visible or "
-        "sibling); for projects: a use of an import-bound name whose local name is also bound in another scope or "
-        "unit; distinct by source text (hashed).")
+RULE = ("(a) Python scope trees: module / functions / nested functions / classes / methods with assignments, augmented "
+        "assignments, for / with / except-as targets, parameters, def, class, aliased imports (also inside if / for / "
+        "try blocks), global / nonlocal and reads in 8 syntactic forms, all over the alphabet {x,y,z} (+ builtins and "
+        "one undefined name), one identifier occurrence of interest per line; (b) 2-6-file Python projects (flat / "
+        "package / sub-package layouts, alphabet {x,y,z,f,g}) with import m, import m as n, import p.m as n, from m "
+        "import f [as g], from m import *, from p import m, from . import m, from .m import f, re-exports (plain and "
+        "under alias), imports inside functions, imports of missing names; (c) JavaScript trees with var / let / "
+        "const / function declarations / function expressions / arrows, parameters, if / else / while / for(let) / "
+        "bare blocks, reads, writes (and calls in the renaming half); (d) renaming of one declaration + exactly the "
+        "occurrences the oracle binds to it (Python trees with srcobj.get() / sink() plumbing and calls, generic "
+        "Python trees, JavaScript trees) and comparison of bindings (as a relation between source positions and "
+        "variable identities), P1 call graph, P3 call paths and taint flows of the two runs. Every occurrence's "
+        "symbol_id in s2space_p1 is mapped to (unit, owning scope by GIR parent chain, name, line) and compared with "
+        "the oracle. Non-trivial = some use's name is declared in >= 2 scopes that are ancestors-or-self of the use's "
+        "scope or children of one (visible or sibling); for projects: a use of an import-bound name whose name is "
+        "bound in >= 2 scopes / units of the project; for the renaming half: every judged pair. Distinct by source "
+        "text (hashed).")
 
 ASSUMPTIONS = [
     "Python ground truth: symtable.symtable() of the running CPython 3.12 (local/free/global/cell) -> owning scope; "
@@ -38,16 +42,25 @@ ASSUMPTIONS = [
     "it the run-time lookup falls back to the global: not a lexical question)",
     "imports: module stems are unique, modules only import from modules earlier in a fixed order, a name bound by an "
     "import has no other binding in that scope -> what it denotes is static; the project resolver is checked against "
-    "a real import of the project in a fresh CPython (module-level names) in both tiers",
-    "a module-level name that is bound only by an augmented assignment or only through `global` in a function has no "
-    "module-level declaration row; 'unresolved' is accepted for the latter",
+    "a real import of the project in a fresh CPython (module-level names) for every project in both tiers; a project "
+    "on which they disagree (import cycles through a package __init__) is not judged (counted; > 1 % = harness error)",
+    "a module-level name that is bound only through `global` in a function has no statement at module level a "
+    "declaration row could come from: 'unresolved' is accepted as well as a unit-level row",
     "JavaScript ground truth: the generator's own resolver (script semantics, no function declarations inside blocks, "
-    "no classes, no catch); cross-checked against node (if present) through probe scripts in the thorough tier only",
-    "declaration rows are located by GIR parent chains (nearest enclosing method_decl / class_decl), not by lian's "
-    "scope tables; volume runs read the loader's memory with Loader.export() skipped and a sample is cross-checked "
-    "against an unmodified run and the exported s2space_p1 bundles (difference = harness error)",
-    "uses of the synthetic names %this/%class/%vvN and the declaration rows themselves (def/class/parameter/import "
-    "lines) are not compared",
+    "no classes, no catch); cross-checked against node (if present) through probe scripts for every 4th tree in the "
+    "thorough tier only; a unit-level ['global'] row is accepted for an undeclared name only if some assignment to "
+    "that name really is undeclared",
+    "declaration rows are located by GIR parent chains (nearest enclosing method_decl / class_decl; %unit_init = the "
+    "unit, %class_sinit = its class), not by lian's scope tables; volume runs read the loader's memory with "
+    "Loader.export() skipped, every 50th case is an unmodified run whose exported s2space_p1 bundles must equal the "
+    "memory view (difference = harness error)",
+    "uses of the synthetic names %this/%class/%vvN (including uses of a method's first parameter inside the method "
+    "itself, which lian renames to %this) and the declaration rows themselves (def/class/parameter/import lines) are "
+    "not compared; class-body reads are joined through their unique target name because class-body statements lose "
+    "their line in %class_sinit",
+    "the signature of a discrepancy is chosen among its applicable root-cause qualifiers: the most specific one "
+    "that is an open known finding, else the most specific one; the renaming half only judges programs on which "
+    "the binding half finds nothing (others are stepped over and counted per finding)",
 ]
 
 
